@@ -24,9 +24,12 @@ def run(tier, runner):
     r_fa.require(8, 'storage pointer overwrites and releasing functions')
     r_st.require(6, 'buffer hand-over functions')
     r_re.require(6, 'vector instantiations')
+    from ..rules import round6
+    r_us = round6.union_state(progs + real)
+    r_us.require(6, 'reads of the heap pointer alternative')
     return {
-        'results': [r_da, r_fa, r_st, r_re, r_w, r_blk, r_sr, r_xa],
-        'explanation': 'DEALLOC-ARG / REALLOC-ARGS: at every deallocate(p, n) the pointer is the object\'s own storage and n is a read of the same object\'s '
+        'results': [r_da, r_fa, r_st, r_re, r_w, r_blk, r_sr, r_xa, r_us],
+        'explanation': 'UNION-STATE: the heap pointer kept in the pointer / inline-elements union is read only where the vector is known to be on the heap (guards, predicates, grow, or every caller of the helper establishes it).  DEALLOC-ARG / REALLOC-ARGS: at every deallocate(p, n) the pointer is the object\'s own storage and n is a read of the same object\'s '
                        'capacity field, unmodified since; every vec::Reallocate call gets (own storage, own capacity, new capacity, own size) and the new '
                        'capacity is the value stored into the capacity field afterwards; inside Reallocate and amc::allocator\'s reallocate the parameters '
                        'reach allocate / relocate / deallocate in the documented positions and order (all are SizeType, so any permutation compiles).  '
